@@ -329,7 +329,12 @@ func specs() []optSpec {
 		}, set: map[string][2]string{"impl.ExtraCiphers": two(`["c0"]`, `["c1"]`)}, needs: "standard"},
 		{name: "StandardExtraKexs", mk: func(v int) util.Option { return options.WithStandardTransportExtraKexs([]string{pick(v, "k0", "k1")}) }, set: map[string][2]string{"impl.ExtraKexs": two(`["k0"]`, `["k1"]`)}, needs: "standard"},
 		{name: "SystemOpenBin", mk: func(v int) util.Option { return options.WithSystemTransportOpenBin(pick(v, "/bin/s0", "/bin/s1")) }, set: map[string][2]string{"impl.OpenBin": two("/bin/s0", "/bin/s1")}, needs: "system"},
-		{name: "SystemOpenArgs", mk: func(v int) util.Option { return options.WithSystemTransportOpenArgs([]string{pick(v, "-a0", "-a1")}) }, app: map[string][2]string{"impl.ExtraArgs": two("-a0", "-a1")}, needs: "system"},
+		// ssh arguments come as flag/value pairs: the two values share their first token
+		{name: "SystemOpenArgs", mk: func(v int) util.Option { return options.WithSystemTransportOpenArgs([]string{"-o", pick(v, "A=0", "B=1")}) }, app: map[string][2]string{"impl.ExtraArgs": two("-o\x00A=0", "-o\x00B=1")}, needs: "system"},
+		// the ordinary "unencrypted key" call: names the key path and (empty) passphrase
+		{name: "AuthPrivateKeyPlain", mk: func(v int) util.Option {
+			return options.WithAuthPrivateKey(pick(v, "/k2", "/k3"), "")
+		}, set: map[string][2]string{"ssh.PrivateKeyPath": two("/k2", "/k3"), "ssh.PrivateKeyPassPhrase": two("", "")}},
 		{name: "SystemOpenArgsOverride", mk: func(v int) util.Option {
 			return options.WithSystemTransportOpenArgsOverride([]string{pick(v, "o0", "o1")})
 		}, set: map[string][2]string{"impl.OpenArgs": two(`["o0"]`, `["o1"]`)}, needs: "system"},
@@ -383,7 +388,7 @@ func expect(ctor string, def snap, list []appl, singles map[string]snap) (snap, 
 		}
 		for k, vals := range a.spec.app {
 			if _, ok := def[k]; ok {
-				apps[k] = append(apps[k], vals[a.v])
+				apps[k] = append(apps[k], strings.Split(vals[a.v], "\x00")...) // several elements are NUL separated
 				want[k] = fmt.Sprintf("%q", apps[k])
 			}
 		}
@@ -543,6 +548,7 @@ func scenarios(tier string) []sched.Scenario {
 			fixed := []string{"AuthUsername", "Port", "TimeoutOps", "ReadDelay", "TermWidth", "FailedWhenContains", "AuthSecondary", "NetconfExcludeHeader", "TransportReadSize", "ReturnChar"}
 			groups := [][]appl{
 				{{by["AuthPrivateKey"], 0}, {by["AuthPassphrase"], 1}, {by["AuthPrivateKey"], 1}},
+				{{by["AuthPrivateKey"], 0}, {by["AuthPassphrase"], 1}, {by["AuthPrivateKeyPlain"], 1}},
 				{{by["SSHKnownHostsFile"], 0}, {by["SSHKnownHostsFileSystem"], 0}, {by["SSHKnownHostsFile"], 1}},
 				{{by["SSHConfigFile"], 0}, {by["SSHConfigFileSystem"], 0}, {by["SSHConfigFile"], 1}},
 				{{by["Logger"], 0}, {by["DefaultLogger"], 0}, {by["Logger"], 1}},
